@@ -42,10 +42,11 @@ def required(tier):
         "message.eof": 1000,
         "message.not_eof": 5000,
         "rendered": 10000,
+        "lr.disambiguation_errors_located": 200,
     }
 
 
-ML_FILLERS = ["", " ", "\n", " \n ", "\n\n", "\t"]
+ML_FILLERS = ["", " ", "\n", " \n ", "\n\n", "\t", "\r\n"]
 
 
 def line_col(inp, pos):
@@ -57,7 +58,7 @@ def line_col(inp, pos):
 def run(ctx):
     gmon = GssMonitor(check_closure=False)
     gmon.install()
-    lmon = LRMonitor()
+    lmon = LRMonitor(record_events=True)
     lmon.install()
     maxlen = 5 if ctx.tier == "quick" else 6
     try:
@@ -67,8 +68,11 @@ def run(ctx):
                 break
             one_grammar(ctx, gmon, g, alphabet, maxlen)
             n += 1
+            del lmon.events[:]
             if n % 4 == 0:
                 list_inputs(ctx, g, alphabet)
+            if n % 3 == 0:
+                ambiguous_terminals(ctx, lmon, g)
     finally:
         gmon.uninstall()
         lmon.uninstall()
@@ -218,6 +222,59 @@ def reattribute(gmon, g, parser, inp):
         return None
     finally:
         gmon.do_closure = False
+
+
+# --- lexically ambiguous terminals under LR ---------------------------------
+
+
+def ambiguous_terminals(ctx, lmon, g):
+    """Same grammar over a vocabulary in which two terminals match the same text:
+    the LR parser may only fail with SyntaxError or with DisambiguationError
+    located at the ambiguous token."""
+    if len(g.terms) < 2:
+        return
+    td = dict(g.tdefs)
+    a, b = g.terms[0], g.terms[1]
+    td[a] = cfg.TDef("re", "x+")
+    td[b] = cfg.TDef("re", "x+|y")
+    for t in g.terms[2:]:
+        td[t] = cfg.TDef("str", "z")
+    g2 = cfg.G(g.prods, g.start, td)
+    text = g2.text()
+    try:
+        lr = pgx.lr(pgx.grammar(text))
+    except Exception:  # noqa: BLE001
+        return
+    for w in cfg.all_strings("xyz", 3):
+        inp = glrwork.relayout(w, ctx.rng, ML_FILLERS)
+        del lmon.events[:]
+        try:
+            with pgx.watchdog(20):
+                kind, err = pgx.outcome(lr.parse, inp)
+        except (pgx.CaseTimeout, pgx.BudgetExceeded):
+            continue
+        if kind != "exc":
+            continue
+        case = {"grammar": text, "g": g2.to_json(), "input": inp, "config": "LR-default-ambiguous-terminals", "list": True}
+        ctx.case((text, "ambterm", inp), True, sample={"grammar": text, "input": inp, "config": "LR ambiguous terminals"})
+        if not isinstance(err, parglare.DisambiguationError):
+            ctx.violation("not-a-syntax-error:" + type(err).__name__, case, "LR raised %s: %s" % (type(err).__name__, str(err)[:200]))
+            continue
+        ctx.count("lr.disambiguation_errors_located")
+        evs = [e for e in lmon.events if e[0] is lr]
+        want = evs[-1][2] if evs else None
+        pos = err.location.start_position
+        try:
+            str(err)
+        except Exception as ex:  # noqa: BLE001
+            ctx.violation("error-rendering-fails:" + type(ex).__name__, case, "str(DisambiguationError) raised %s" % ex)
+            continue
+        if want is not None and pos != want:
+            ctx.violation("disambiguation-error-not-at-ambiguous-token", case, "DisambiguationError located at %s, the ambiguous tokens %s start at %s" % (pos, [t.value for t in err.tokens], want))
+            continue
+        wl, wc = line_col(inp, want)
+        if (err.location.line, err.location.column) != (wl, wc):
+            ctx.violation("wrong-line-column", case, "DisambiguationError reported %s:%s, position %d is %d:%d" % (err.location.line, err.location.column, want, wl, wc))
 
 
 # --- list (non string) inputs --------------------------------------------
